@@ -36,10 +36,39 @@ BUDGET = {'quick': 150, 'thorough': 1200}
 # ---------------------------------------------------------------------------------------------
 # instrumentation
 
+def _norm(v):
+    """same object with numbers that compare equal made identical (an intermediate struct of a full contraction carries the
+    charge 0.0 where another path has 0: equal as cache keys and as values, not an observable difference)"""
+    if isinstance(v, (bool, np.bool_)):
+        return bool(v)
+    if isinstance(v, (float, np.floating)):
+        return int(v) if float(v).is_integer() else float(v)
+    if isinstance(v, (int, np.integer)):
+        return int(v)
+    if isinstance(v, tuple):
+        items = [_norm(x) for x in v]
+        return type(v)(*items) if hasattr(v, '_fields') else tuple(items)
+    if isinstance(v, list):
+        return [_norm(x) for x in v]
+    if isinstance(v, dict):
+        return {_norm(k): _norm(x) for k, x in v.items()}
+    if isinstance(v, np.ndarray):
+        if v.dtype.kind == 'f' and v.size and np.all(np.mod(v, 1) == 0):
+            return v.astype(np.int64)
+        if v.dtype.kind in 'iu':
+            return v.astype(np.int64)
+        return v
+    return v
+
+
 def digest(v):
-    """digest of a cached value (nested tuples/lists/dicts/ndarrays/namedtuples/scalars) via its pickle"""
+    """digest of a cached value (nested tuples/lists/dicts/ndarrays/namedtuples/scalars) via its pickle; values containing
+    floats or numpy objects are first brought to the normal form above (fast path: pure int/str/tuple metadata)"""
     try:
-        return hashlib.blake2b(pickle.dumps(v, protocol=4), digest_size=16).digest()
+        p = pickle.dumps(v, protocol=4)
+        if b'G' in p or b'numpy' in p:
+            p = pickle.dumps(_norm(v), protocol=4)
+        return hashlib.blake2b(p, digest_size=16).digest()
     except Exception:
         return repr(v)
 
@@ -171,7 +200,11 @@ def fam_tensors(fam, policy='fuse_to_matrix'):
     # rank 3 with s=(1,1,-1): allowed blocks differ between the groups, we set only those allowed in ALL groups
     t3 = T((1, 1, -1), [((c0, c0, c0), (1, 1, 1)), ((c0, c1, c1), (1, 2, 2)), ((c1, c0, c1), (2, 1, 2))])
     t3b = T((1, 1, -1), [((c0, c0, c0), (1, 1, 1)), ((c1, c0, c1), (2, 1, 2))])
-    return cfg, dict(a=a, b=b, b1=b1, d=d, t3=t3, t3b=t3b)
+    # same fusion tree, different fusion history, and a shared effective charge (c1) whose internal sub-sectors are disjoint:
+    # (c1, c0) in p3 against (c0, c1) in q3 - the intersection mask of that charge is entirely False
+    p3 = T((1, 1, -1), [((c0, c0, c0), (1, 1, 1)), ((c1, c0, c1), (1, 1, 1))])
+    q3 = T((1, 1, -1), [((c0, c0, c0), (1, 1, 1)), ((c0, c1, c1), (1, 1, 1))])
+    return cfg, dict(a=a, b=b, b1=b1, d=d, t3=t3, t3b=t3b, p3=p3, q3=q3)
 
 
 def make_events(fams, tier):
@@ -193,6 +226,7 @@ def make_events(fams, tier):
         ev.append((f'svd({fam})', lambda X=X: _svd_obs(X)))
         ev.append((f'ncon_swap({fam})', lambda X=X: [yastn.ncon([X['t3'], X['a'], X['b']], [[1, -1, 2], [2, -2], [-0, 1]], swap=[(1, -1)])]))
         ev.append((f'fused_mismatch({fam})', lambda X=X: _fused_mismatch(X)))
+        ev.append((f'fused_disjoint({fam})', lambda X=X: _fused_disjoint(X)))
     cache_events = [('clear_cache', lambda: yastn.clear_cache() or []),
                     ('maxsize(0)', lambda: yastn.set_cache_maxsize(0) or []),
                     ('maxsize(1)', lambda: yastn.set_cache_maxsize(1) or []),
@@ -219,6 +253,12 @@ def _fused_mismatch(X):
     out = [f + g, yastn.vdot(f, g), yastn.tensordot(f, g, axes=(0, 0), conj=(0, 1))]
     out.append(f.to_numpy(legs={0: g.get_legs(0)}))
     return out
+
+
+def _fused_disjoint(X):
+    f = X['p3'].fuse_legs(axes=((0, 1), 2), mode='hard')
+    g = X['q3'].fuse_legs(axes=((0, 1), 2), mode='hard')
+    return [yastn.tensordot(f, g, axes=(0, 0), conj=(0, 1)), yastn.vdot(f, g)]
 
 
 def obs_bytes(res):
